@@ -193,7 +193,59 @@ def group_L():
     out['L: (measurement) largest move when Dykstra is applied to its own output, three sets with a common point'] = {'instances': n_inst, 'failures': 0, 'first_failure': None, 'worst': worst}
 
 
-GROUPS = {'J': group_J, 'M': group_M, 'B': group_B, 'V': group_V, 'Vd': group_Vd, 'Sc': group_Sc, 'L': group_L}
+def group_L2():
+    """numeric assumptions of C04 (ii) (A-N1, A-N2, N-ratio; A-M): evaluated as ONE run-time clause at every Model.change_point call of seeded random solver runs without
+    sample averaging: the call targets a new slot, or a slot other than kopt, or the new value is better than the incumbent it overwrites, or the incumbent had been
+    offered to the saved slot (objsave <= objopt up to 1e-12 relative)."""
+    import os
+    src = open(os.path.join(os.path.dirname(os.path.abspath(__file__)), 'falsify2.py')).read().split("rng = np.random.default_rng(int(")[0]
+    env = {'__name__': 'falsify2_gen'}
+    argv = sys.argv
+    sys.argv = ['falsify2', 'C04', '0']
+    import io, contextlib
+    with contextlib.redirect_stdout(io.StringIO()):
+        exec(src, env)
+    sys.argv = argv
+    import dfols
+    from dfols import model as M
+    real = M.Model.change_point
+    st = {'calls': 0, 'failures': 0, 'first': None, 'scenario': None}
+
+    def wrapped(self, k, x, rvec, eval_num, allow_kopt_update=True):
+        npt, kopt = self.npt(), self.kopt
+        old = self.objval[kopt]
+        saved = self.objsave is not None and (self.objsave <= old * (1 + 1e-12) + 1e-300)
+        fine = k >= npt or k != kopt
+        r = real(self, k, x, rvec, eval_num, allow_kopt_update)
+        st['calls'] += 1
+        if not fine:
+            new = self.objval[k]
+            if not (new < old or np.isnan(old) or saved):
+                st['failures'] += 1
+                if st['first'] is None:
+                    st['first'] = 'scenario %r: change_point(k=%d == kopt) replaced the incumbent value %r by %r, saved slot %r' % (st['scenario'], k, float(old), float(new), self.objsave)
+        return r
+    M.Model.change_point = wrapped
+    try:
+        g = np.random.default_rng(0)
+        for t in range(150):
+            d, rec, x0, kw = env['gen'](g, t)
+            if kw.get('nsamples') is not None:
+                continue
+            st['scenario'] = (t, str(d['mode']), str(d['constraint']))
+            try:
+                np.random.seed(t)
+                with contextlib.redirect_stdout(io.StringIO()):
+                    dfols.solve(rec, x0, **kw)
+            except Exception:
+                pass
+    finally:
+        M.Model.change_point = real
+    out['L: A-N1 / A-N2 / N-ratio as one run-time clause at every Model.change_point call (random solver runs, no sample averaging)'] = \
+        {'instances': st['calls'], 'failures': st['failures'], 'first_failure': st['first']}
+
+
+GROUPS = {'J': group_J, 'M': group_M, 'B': group_B, 'V': group_V, 'Vd': group_Vd, 'Sc': group_Sc, 'L': lambda: (group_L(), group_L2())}
 if __name__ == '__main__':
     want = sys.argv[1].split(',') if len(sys.argv) > 1 else list(GROUPS)
     for g in want:
